@@ -281,6 +281,9 @@ func (m *machine) event(c *model.Cmd) {
 
 func (m *machine) decide(b bool) bool {
 	m.tr.Decisions++
+	if m.epoch > 0 {
+		m.tr.LateDecisions++
+	}
 	x := uint64(2)
 	if b {
 		x = 3
